@@ -1,12 +1,22 @@
 (** C17 – user dictionary sync merges without loss; snapshots round-trip.
-    Property theorems only; each closed by [exact] of a lemma proved elsewhere. *)
+    Property theorems only; each closed by [exact]/[apply] of a lemma proved in
+    Udb/*Proofs.v (two-line glue where the generated fact of Gen/Inits.v is plugged in).
+
+    Conventions: [O] is the abstract double ([dee_ops]); [dee_print_ok O] says that a printed
+    double contains no blank and is accepted by stod again.  [inits] is instantiated by
+    [ctor_inits_merged_entries], the fact gen/udb_inits.py extracts from the current
+    src/rime/dict/user_db.h/.cc.  [g] is whatever the merger's storage held before
+    construction.  Dictionaries are arbitrary (all proofs are inductions over entry lists). *)
 From Coq Require Import List NArith ZArith Bool.
-From RimeV Require Import Base.Bytes Udb.Value Udb.Merge Udb.Tsv Udb.Manager Udb.InitKinds Gen.Inits.
+From RimeV Require Import Base.Bytes Udb.Value Udb.ValueProofs Udb.Merge Udb.MergeProofs Udb.Tsv Udb.TsvProofs
+  Udb.Manager Udb.ManagerProofs Udb.Examples Udb.InitKinds Gen.Inits.
 Import ListNotations.
 
-(** Every data member that MetaPut/Put/CloseMerge/the destructor of UserDbMerger (and
+(** ** the constructor facts of the current source *)
+
+(** Every data member that MetaPut/Put/CloseMerge/the destructor of UserDbMerger (and of
     UserDbImporter) read is initialised by construction, and UserDbValue's members default
-    to zero – as extracted from the current source by gen/udb_inits.py. *)
+    to zero. *)
 Theorem C17_members_initialised : all_read_members_initialised = true.
 Proof. vm_compute. reflexivity. Qed.
 Print Assumptions C17_members_initialised.
@@ -14,3 +24,195 @@ Print Assumptions C17_members_initialised.
 Theorem C17_ctor_initialises_merged_entries : ctor_inits_merged_entries = true.
 Proof. vm_compute. reflexivity. Qed.
 Print Assumptions C17_ctor_initialises_merged_entries.
+
+(** With the constructor of the current source, a merge never reads an uninitialised member
+    and its outcome does not depend on what the storage held before. *)
+Theorem C17_merge_reads_initialised : forall O g g' uid src dst,
+  m_uninit (merge_run O ctor_inits_merged_entries g uid src dst) = false /\
+  merge_run O ctor_inits_merged_entries g uid src dst = merge_run O ctor_inits_merged_entries g' uid src dst.
+Proof. rewrite C17_ctor_initialises_merged_entries. exact merge_reads_initialised. Qed.
+Print Assumptions C17_merge_reads_initialised.
+
+(** Not vacuous: without the initialisation the model does read the indeterminate value, and
+    with -1 in the storage a one-entry merge leaves the tick behind. *)
+Theorem C17_uninitialised_counter_example :
+  get_tick_count (merge_db erased_ops false (-1) ex_u0 ex_one ex_ours) = 10%N /\
+  m_uninit (merge_run erased_ops false (-1) ex_u0 ex_one ex_ours) = true /\
+  get_tick_count (merge_db erased_ops false 0 ex_u0 ex_one ex_ours) = 20%N.
+Proof. exact ex_uninitialised_counter. Qed.
+Print Assumptions C17_uninitialised_counter_example.
+
+(** ** merging a snapshot ([UserDbMerger] fed by a [DbSource]) *)
+
+(** No entry is removed: every key of the dictionary and every key the snapshot's cursor
+    yields is a key of the result; and no key is invented. *)
+Theorem C17_merge_keys_kept : forall O inits g uid src dst k,
+  (find k (data dst) <> None -> find k (data (merge_db O inits g uid src dst)) <> None) /\
+  (In k (keys (query_all (data src))) -> find k (data (merge_db O inits g uid src dst)) <> None) /\
+  (In k (keys (data (merge_db O inits g uid src dst))) -> In k (keys (data dst)) \/ In k (keys (query_all (data src)))).
+Proof.
+  intros. split; [apply merge_keeps_our_keys | split; [apply merge_keeps_their_keys | apply merge_invents_no_key]].
+Qed.
+Print Assumptions C17_merge_keys_kept.
+
+(** Each entry of the snapshot ends with the larger magnitude of the two sides.  The sign
+    rule of the code, exactly: theirs replaces ours iff |ours| < |theirs| (a tie keeps ours;
+    an entry we do not have counts as 0); the entry is stamped with the new tick. *)
+Theorem C17_merge_magnitude_max : forall O, dee_print_ok O ->
+  forall inits g uid src dst k v,
+  NoDup (keys (data src)) -> In (k, v) (query_all (data src)) ->
+  exists s, find k (data (merge_db O inits g uid src dst)) = Some s
+    /\ commits (unpack O s) = merged_commits (our_commits O dst k) (commits (unpack O v))
+    /\ Z.abs (commits (unpack O s)) = Z.max (Z.abs (our_commits O dst k)) (Z.abs (commits (unpack O v)))
+    /\ tick (unpack O s) = N.max (get_tick_count dst) (snapshot_tick src).
+Proof.
+  intros O HO inits g uid src dst k v ND H.
+  destruct (merge_entry O HO inits g uid src dst k v ND H) as (s & F & C & T).
+  exists s. rewrite C. repeat split; try assumption. apply merged_commits_abs.
+Qed.
+Print Assumptions C17_merge_magnitude_max.
+
+(** Entries present on one side only are kept: ours untouched (same stored value), theirs
+    with their commit count. *)
+Theorem C17_merge_one_sided_kept : forall O, dee_print_ok O ->
+  forall inits g uid src dst k,
+  (~ In k (keys (query_all (data src))) -> find k (data (merge_db O inits g uid src dst)) = find k (data dst)) /\
+  (forall v, NoDup (keys (data src)) -> In (k, v) (query_all (data src)) -> find k (data dst) = None ->
+     exists s, find k (data (merge_db O inits g uid src dst)) = Some s /\ commits (unpack O s) = commits (unpack O v)).
+Proof.
+  intros O HO inits g uid src dst k. split; [apply merge_untouched|].
+  intros v ND H F. destruct (merge_entry O HO inits g uid src dst k v ND H) as (s & Fs & C & _).
+  exists s. split; [exact Fs|]. rewrite C. unfold our_commits. rewrite F. apply merged_commits_zero.
+Qed.
+Print Assumptions C17_merge_one_sided_kept.
+
+(** A merge never lowers the magnitude of any entry's commit count (any snapshot). *)
+Theorem C17_merge_never_lowers : forall O, dee_print_ok O ->
+  forall inits g uid src dst, mag_le O (data dst) (data (merge_db O inits g uid src dst)).
+Proof. intros O HO inits g uid src dst. apply merge_mag_le. exact HO. Qed.
+Print Assumptions C17_merge_never_lowers.
+
+(** The tick becomes the maximum of both – when the snapshot contributes at least one entry
+    (CloseMerge returns early otherwise).  A dictionary without "/tick" counts as 1, a
+    snapshot without it as 0. *)
+Theorem C17_merge_tick_max : forall O g uid src dst,
+  query_all (data src) <> [] ->
+  get_tick_count (merge_db O ctor_inits_merged_entries g uid src dst) = N.max (get_tick_count dst) (snapshot_tick src).
+Proof. rewrite C17_ctor_initialises_merged_entries. exact merge_tick_max. Qed.
+Print Assumptions C17_merge_tick_max.
+
+(** The statement without that hypothesis is false of the code as written: an empty
+    snapshot with a larger tick leaves the whole dictionary, tick included, as it was. *)
+Definition C17_merge_tick_max_full : Prop :=
+  forall O g uid src dst,
+  get_tick_count (merge_db O true g uid src dst) = N.max (get_tick_count dst) (snapshot_tick src).
+
+Theorem C17_merge_tick_max_full_refuted : ~ C17_merge_tick_max_full.
+Proof.
+  intro H. specialize (H erased_ops 0%Z ex_u0 ex_empty_100 ex_ours).
+  destruct ex_empty_snapshot_tick as [A B]. rewrite A, B in H. discriminate.
+Qed.
+Print Assumptions C17_merge_tick_max_full_refuted.
+
+Theorem C17_merge_empty_snapshot_noop : forall O g uid src dst,
+  query_all (data src) = [] -> merge_db O ctor_inits_merged_entries g uid src dst = dst.
+Proof. rewrite C17_ctor_initialises_merged_entries. exact merge_empty_snapshot_noop. Qed.
+Print Assumptions C17_merge_empty_snapshot_noop.
+
+(** Merging the same snapshot a second time changes nothing observable: the list of
+    (key, commits, tick) and the dictionary's tick stay the same. *)
+Theorem C17_merge_idempotent : forall O, dee_print_ok O ->
+  forall g uid src dst, NoDup (keys (data src)) ->
+  let r1 := merge_db O ctor_inits_merged_entries g uid src dst in
+  let r2 := merge_db O ctor_inits_merged_entries g uid src r1 in
+  dump O r2 = dump O r1 /\ get_tick_count r2 = get_tick_count r1.
+Proof. rewrite C17_ctor_initialises_merged_entries. exact merge_idempotent. Qed.
+Print Assumptions C17_merge_idempotent.
+
+(** Not vacuous: a concrete pair of dictionaries meets the hypotheses and the merge gives
+    a -> -5 (was 3 vs -5), b -> 1 kept, c -> -1 added, tick 20 = max 10 20. *)
+Theorem C17_merge_example :
+  dee_print_ok erased_ops /\ NoDup (keys (data ex_theirs)) /\ query_all (data ex_theirs) <> [] /\
+  dump erased_ops (merge_db erased_ops true 0 ex_u0 ex_theirs ex_ours) =
+    [(ex_k1, (-5)%Z, 20%N); (ex_k2, 1%Z, 1%N); (ex_k3, (-1)%Z, 20%N)] /\
+  get_tick_count (merge_db erased_ops true 0 ex_u0 ex_theirs ex_ours) = 20%N.
+Proof.
+  split; [exact erased_print_ok|]. split; [exact ex_theirs_nodup|]. split; [exact ex_theirs_nonempty|]. exact ex_merge_result.
+Qed.
+Print Assumptions C17_merge_example.
+
+(** ** snapshots *)
+
+(** UniformBackup then UniformRestore into an empty store gives back every record of a
+    well-formed dictionary (keys: code TAB text, code starting with a byte >= 0x20 other
+    than '#' and ending with a blank, no TAB/LF inside; values and metadata without TAB/LF
+    and not ending in an isspace byte), data and metadata alike, byte for byte. *)
+Theorem C17_snapshot_roundtrip : forall d, wf_db d ->
+  let r := uniform_restore (uniform_backup d) empty_db in
+  (forall k, find k (data r) = find k (data d)) /\ (forall k, find k (meta r) = find k (meta d)).
+Proof. exact uniform_roundtrip. Qed.
+Print Assumptions C17_snapshot_roundtrip.
+
+(** UserDictManager::Backup on one installation, UserDictManager::Restore of that snapshot
+    into an empty dictionary of another: the restore succeeds and the result has exactly the
+    keys of the original, each with its commit count. *)
+Theorem C17_backup_restore_into_empty : forall O, dee_print_ok O ->
+  forall inits g ver uidA uidB d dest,
+  wf_db d -> get_user_id d = uidA -> is_user_db d = true ->
+  find mk_db_name (meta d) = Some dict_name -> data dest = [] ->
+  let snap := snd (um_backup ver uidA dict_name d) in
+  let res := um_restore O inits g ver uidB dict_name snap dest in
+  snd res = RestoreOk /\
+  forall k, match find k (data d) with
+            | Some v => exists s, find k (data (fst res)) = Some s /\ commits (unpack O s) = commits (unpack O v)
+            | None => find k (data (fst res)) = None
+            end.
+Proof. intros O HO inits g ver. exact (backup_restore_into_empty O HO inits g ver). Qed.
+Print Assumptions C17_backup_restore_into_empty.
+
+Theorem C17_backup_restore_example :
+  wf_db ex_theirs /\ get_user_id ex_theirs = ex_u1 /\ is_user_db ex_theirs = true /\
+  find mk_db_name (meta ex_theirs) = Some dict_name /\
+  let snap := snd (um_backup ex_ver ex_u1 dict_name ex_theirs) in
+  let res := um_restore erased_ops true 0 ex_ver ex_u0 dict_name snap (create_metadata ex_ver ex_u0 dict_name empty_db) in
+  map (fun e => (fst (fst e), snd (fst e))) (dump erased_ops (fst res)) = [(ex_k1, (-5)%Z); (ex_k3, (-1)%Z)].
+Proof.
+  split; [exact ex_theirs_wf|]. destruct ex_roundtrip_hyps as (A & B & C).
+  split; [exact A|]. split; [exact B|]. split; [exact C|]. exact ex_roundtrip_result.
+Qed.
+Print Assumptions C17_backup_restore_example.
+
+(** ** text import ([UserDbImporter::Put]) *)
+
+(** A positive count raises ours to the maximum, a negative one marks the entry deleted with
+    at least our magnitude, zero changes nothing; the entry's tick is not touched; other
+    entries are not touched. *)
+Theorem C17_import_semantics : forall O, dee_print_ok O ->
+  forall d k v,
+  (exists s, find k (data (imp_put O d k v)) = Some s
+     /\ commits (unpack O s) = imported_commits (our_commits O d k) (commits (unpack O v))
+     /\ tick (unpack O s) = match find k (data d) with Some s0 => tick (unpack O s0) | None => 0%N end) /\
+  (forall k', k' <> k -> find k' (data (imp_put O d k v)) = find k' (data d)).
+Proof.
+  intros O HO d k v. split; [apply import_put_entry; exact HO | intros k' N; now apply import_put_other].
+Qed.
+Print Assumptions C17_import_semantics.
+
+Theorem C17_import_example :
+  imported_commits 3 5 = 5%Z /\ imported_commits (-5) 2 = 2%Z /\ imported_commits 3 (-1) = (-3)%Z /\
+  imported_commits 2 (-7) = (-7)%Z /\ imported_commits 4 0 = 4%Z.
+Proof. exact ex_import_rule. Qed.
+Print Assumptions C17_import_example.
+
+(** ** histories *)
+
+(** Over every sequence of backup / restore / restore-from-file / synchronize / export /
+    direct merge / direct backup operations between any number of installations, starting
+    from any world, no dictionary ever loses an entry or ends with a smaller commit
+    magnitude for an entry than it had (import and a direct UniformRestore are excluded:
+    import may resurrect a deleted entry with a smaller count, UniformRestore overwrites). *)
+Theorem C17_history_never_loses : forall O, dee_print_ok O ->
+  forall inits g ver ops w j, forallb sync_op ops = true ->
+  mag_le O (data (get_db w j)) (data (get_db (run O inits g ver ops w) j)).
+Proof. intros O HO inits g ver. exact (history_never_loses O HO inits g ver). Qed.
+Print Assumptions C17_history_never_loses.
